@@ -278,8 +278,15 @@ def audit_file_directly(module, namespace, theorems):
     return res
 
 
-# corollaries that combine a regenerated function with theorems of the hand-written model; audited with the `_eq_model` theorem of the function
-GEN_LOGIC_COROLLARIES = {'parse_mpint': ['regenerated_reader_inverts_writer'], 'create_mpint': ['regenerated_roundtrip', 'regenerated_roundtrip_ssh1'], 'kex_parse': ['regenerated_kexinit_roundtrip']}
+# corollaries that combine regenerated functions with theorems of the hand-written model: corollary -> the regenerated functions it is about.
+# It is audited with the first of them (its owner); when any of them is no longer in the translatable subset the corollary is a lost tie as well
+# (benign change A4: `SSH2_Kex.write` rewritten as a loop made `regenerated_kexinit_roundtrip`, owned by `kex_parse`, uncheckable)
+GEN_LOGIC_COROLLARIES = {
+    'regenerated_reader_inverts_writer': ['parse_mpint', 'mpint2_pad_fmt'],
+    'regenerated_roundtrip': ['create_mpint', 'parse_mpint', 'mpint2_pad_fmt'],
+    'regenerated_roundtrip_ssh1': ['create_mpint', 'parse_mpint'],
+    'regenerated_kexinit_roundtrip': ['kex_parse', 'kex_write'],
+}
 
 
 def gen_logic_audit(names, corollaries=True):
@@ -302,7 +309,7 @@ def gen_logic_audit(names, corollaries=True):
     for unit, ns in sorted(by_unit.items()):
         module = 'SshAudit.Props.Gen' + unit
         ths = [n + '_eq_model' for n in ns]
-        cors = {c: n for n in ns for c in GEN_LOGIC_COROLLARIES.get(n, [])} if corollaries else {}
+        cors = {c: deps for c, deps in GEN_LOGIC_COROLLARIES.items() if deps[0] in ns} if corollaries else {}
         ths += sorted(cors)
         b = lake_build([module])
         res = audit_theorems(module, 'SshAudit.GenLogic', ths, b)
@@ -317,8 +324,10 @@ def gen_logic_audit(names, corollaries=True):
                 r = {'ok': False, 'axioms': None, 'structural': True,
                      'why': 'the function is no longer in the translatable subset: ' + info['untranslatable'][n]}
             out['GenLogic.%s_eq_model' % n] = r
-        for c, n in sorted(cors.items()):
-            out['GenLogic.' + c] = dict(out['GenLogic.%s_eq_model' % n]) if out['GenLogic.%s_eq_model' % n].get('structural') else res[c]
+        for c, deps in sorted(cors.items()):
+            gone = [d for d in deps if d in info['untranslatable']]
+            out['GenLogic.' + c] = ({'ok': False, 'axioms': None, 'structural': True,
+                                     'why': 'a function the corollary is about is no longer in the translatable subset: ' + ', '.join(gone)} if gone else res[c])
     return out, info
 
 
